@@ -34,15 +34,18 @@ TARGETS = [
     ("lib/model/transaction/transaction.go", ["C10", "C09"]),
     ("lib/model/posting/posting.go", ["C01", "C09"]),
     ("lib/journal/beancount/beancount.go", ["C16"]),
-    ("lib/reports/weights/weights.go", ["C20"]),
+    ("lib/reports/weights/weights.go", ["C20", "C17"]),
+    ("lib/reports/register/register.go", ["C06"]),
+    ("cmd/commands/register.go", ["C06"]),
+    ("cmd/importer/supercard/supercard.go", ["C13"]),
     ("lib/journal/performance/performance.go", ["C20"]),
     ("lib/syntax/bayes/bayes.go", ["C15"]),
     ("cmd/commands/infer.go", ["C15", "C18"]),
     ("cmd/commands/format.go", ["C18", "C08"]),
-    ("lib/journal/journal.go", ["C19", "C05", "C02"]),
+    ("lib/journal/journal.go", ["C19", "C05", "C02", "C06"]),
     ("lib/common/cpr/cpr.go", ["C19"]),
     ("lib/model/account/account.go", ["C02", "C03"]),
-    ("lib/amounts/amounts.go", ["C02", "C01"]),
+    ("lib/amounts/amounts.go", ["C02", "C01", "C06"]),
     ("cmd/flags/flags.go", ["C14", "C11"]),
     ("lib/syntax/syntax.go", ["C05", "C14", "C08"]),
     ("cmd/importer/revolut2/revolut2.go", ["C13"]),
